@@ -26,7 +26,7 @@ type SrvCfg struct {
 }
 
 type SrvStep struct {
-	Op    string `json:"op"` // anon | login | unknown | wrong | nochallenge | bl-add | bl-rm | wl-add | wl-rm | park | resume-good | resume-bad | restart | rehs-same | rehs-other | rehs-wrong
+	Op    string `json:"op"` // anon | login | unknown | wrong | nochallenge | bl-add | bl-rm | wl-add | wl-rm | park | resume-good | resume-bad | restart | rehs-same | rehs-other | rehs-wrong | anon-id
 	Addr  int    `json:"addr"`
 	Key   int    `json:"key,omitempty"` // list operations: index into srvKeys
 	AtMs  int    `json:"at_ms"`
@@ -60,7 +60,9 @@ func genSrv(t *rapid.T) SrvCase {
 		"park", "resume-good", "resume-good", "resume-bad", "restart",
 		// rehs-*: another handshake on a connection of the address that is already authenticated and still open
 		// (same client id / unknown id / challenge response out of the blue)
-		"rehs-same", "rehs-same", "rehs-other", "rehs-wrong"}
+		"rehs-same", "rehs-same", "rehs-other", "rehs-wrong",
+		// anon-id: registration token ("new-client" / "anonymous:*") with a non-zero client id, repeated faster than the bucket allows
+		"anon-id", "anon-id"}
 	var bounds []int
 	T := 0
 	restarted := false
@@ -101,6 +103,12 @@ func genSrv(t *rapid.T) SrvCase {
 			s.N = rapid.IntRange(1, 2).Draw(t, "n")
 		case "anon":
 			s.N = rapid.IntRange(1, c.Cfg.Burst+3).Draw(t, "n")
+		case "anon-id":
+			s.N = rapid.IntRange(c.Cfg.Burst+2, c.Cfg.Burst+4).Draw(t, "n")
+			s.Key = rapid.IntRange(0, 1).Draw(t, "idKind")
+			if s.Key == 0 {
+				bounds = append(bounds, T+c.Cfg.WMs, T+c.Cfg.BanMs) // unknown ids are failed authentications
+			}
 		case "bl-add":
 			s.Key = rapid.SampledFrom([]int{0, 0, 1, 2}).Draw(t, "key")
 			s.DurMs = rapid.SampledFrom([]int{0, 100, 100}).Draw(t, "dur")
@@ -215,6 +223,14 @@ func (w *srvWorld) callR(si int, addr int, cl *miniserver.Client, req *packet.Ha
 		return "none", nil, cl
 	}
 	kind = outcome(resp, herr)
+	// every answer that hands out fresh credentials is an anonymous registration of this address, whatever the
+	// request looked like; together with the limiter's refusals these are the observations of the rate oracle
+	if (kind == "success" && resp.SecretKey != "") || kind == "ratelimited" {
+		w.anon[addr] = append(w.anon[addr], rateObs{iv, kind == "success"})
+		if kind == "success" && req.ClientID != 0 {
+			w.feats["registration-granted-to-request-quoting-a-client-id"]++
+		}
+	}
 	wantAllowed, blKey, blWhy := w.lists.allowed(ip, iv, covers)
 	wantBan := w.bf[addr].query(iv)
 	w.trace = append(w.trace, fmt.Sprintf("%d:%s %s [%v,%v] -> %s (model: listed-allowed=%v banned=%v)", si, what, ip, b.Round(time.Microsecond), a.Round(time.Microsecond), kind, wantAllowed, wantBan))
@@ -380,15 +396,25 @@ func runSrv(t vkit.TB, c SrvCase) {
 			w.trace = append(w.trace, fmt.Sprintf("%d:wl-rm %s @%v", si, srvKeys[s.Key], w.now().Round(time.Microsecond)))
 		case "anon":
 			for k := 0; k < n && !w.failed; k++ {
-				b := w.now()
 				kind, cl := w.call(si, s.Addr, nil, &packet.HandshakeRequest{ClientID: 0, Token: "new-client", Version: "2.0", Protocol: "tcp", ConnectionType: "control"}, true, "anonymous registration")
 				open = append(open, cl)
-				if kind == "success" || kind == "ratelimited" {
-					w.anon[s.Addr] = append(w.anon[s.Addr], rateObs{ival{b, w.now()}, kind == "success"})
-				}
 				if kind == "ratelimited" {
 					w.feats["refused:ratelimited"]++
 				}
+			}
+		case "anon-id":
+			// a registration token together with a NON-ZERO client id (unknown id / the id of an existing client):
+			// not a first connection; if it is served as a registration anyway it counts against rate and burst
+			for k := 0; k < n && !w.failed; k++ {
+				req := base(int64(555000 + si*100 + k))
+				what := "registration token quoting an unknown client id"
+				if s.Key == 1 {
+					req.ClientID = w.id
+					what = "registration token quoting an existing client id"
+				}
+				req.Token = []string{"new-client", "anonymous:device-7"}[k%2]
+				_, cl := w.call(si, s.Addr, nil, req, false, what)
+				open = append(open, cl)
 			}
 		case "unknown":
 			for k := 0; k < n && !w.failed; k++ {
